@@ -177,6 +177,33 @@ def capture_cases(rng):
                                     lambda d: d.refs[0].comment, exp))
                         out.append((f'ref-block|{lab}', f'Table t {{\n id int\n x int\n}}\n{ab}Ref {{\n  t.id > t.x{settings}{tr}\n}}\n',
                                     lambda d: d.refs[0].comment, exp))
+    # ---- an EMPTY trailing comment is still the trailing comment: it wins over the block above
+    for empty in ('//', '// ', '/**/', '/* */'):
+        a = txt(False)
+        ab = above(a, 'line', '  ')
+        out.append((f'column|above+empty-trailing|{empty}', f'Table t {{\n  first int\n{ab}  id int [pk] {empty}\n  last int\n}}\n',
+                    lambda d: d.tables[0].columns[1].comment, ''))
+        out.append((f'enumitem|above+empty-trailing|{empty}', f'Enum e {{\n  first\n{ab}  it {empty}\n  last\n}}\n',
+                    lambda d: d.enums[0].items[1].comment, ''))
+        out.append((f'index|above+empty-trailing|{empty}', f'Table t {{\n  id int\n  x int\n  indexes {{\n    x\n  {ab}    id [unique] {empty}\n  }}\n}}\n',
+                    lambda d: d.tables[0].indexes[1].comment, ''))
+        out.append((f'ref-short|above+empty-trailing|{empty}', f'Table t {{\n id int\n x int\n}}\n{above(a, "line")}Ref: t.id > t.x {empty}\n',
+                    lambda d: d.refs[0].comment, ''))
+    # ---- a comment after the closing brace of a block belongs to nothing; the element that follows keeps exactly the block
+    # written directly above it (or no comment at all)
+    firsts = {'table': 'Table f {\n  id int\n}', 'enum': 'Enum fe {\n  x\n}', 'ref-block': 'Ref fr {\n  t.id > t.x\n}',
+              'group': 'TableGroup fg {\n  t\n}', 'project': "Project fp {\n  k: 'v'\n}", 'sticky': "Note fn {\n  'x'\n}"}
+    seconds = {'table': ('Table s {\n  id int\n}', lambda d: d.tables[-1].comment), 'enum': ('Enum se {\n  x\n}', lambda d: d.enums[-1].comment),
+               'ref-short': ('Ref: t.x > t.id', lambda d: d.refs[-1].comment), 'ref-block': ('Ref sr {\n  t.x > t.id\n}', lambda d: d.refs[-1].comment),
+               'group': ('TableGroup sg {\n  t\n}', lambda d: d.table_groups[-1].comment)}
+    for k1, e1 in firsts.items():
+        for k2, (e2, get2) in seconds.items():
+            for own in (False, True):
+                for form in ('line', 'block'):
+                    a = txt(False) if own else []
+                    tb = txt(False)
+                    text = 'Table t {\n id int\n x int\n}\n' + e1 + trail(tb, form) + '\n' + (above(a, 'line') if own else '') + e2 + '\n'
+                    out.append((f'after-closing-brace:{k1}|then-{k2}|{"own" if own else "none"}|{form}', text, get2, a[0] if own else None))
     return out
 
 
